@@ -37,8 +37,8 @@ SHARDS = {"quick": 16, "thorough": 16}
 MIN_REACH = {
     "crops_named_by_a_relative_parent_dir": {"quick": 6, "thorough": 60},
     "scripts_generated": {"quick": 40, "thorough": 400},
-    "script_executions": {"quick": 60, "thorough": 500},
-    "programs_compiled": {"quick": 60, "thorough": 500},
+    "script_executions": {"quick": 35, "thorough": 400},
+    "programs_compiled": {"quick": 35, "thorough": 400},
     "cli_runs": {"quick": 4, "thorough": 40},
     "partial_state_scripts": {"quick": 12, "thorough": 120},
 }
